@@ -455,7 +455,8 @@ def bounded_sessions(pid, tier, seed):
         for step in range(length):
             op = rng.choice(["listscripts", "getscript", "putscript", "deletescript", "setactive", "renamescript", "havespace"])
             n1, n2 = rng.choice(names), rng.choice(names)
-            body = rng.choice(["keep;\r\n", "stop;\r\n", "# c\r\ndiscard;\r\n"])
+            body = rng.choice(["keep;\r\n", "stop;\r\n", "# c\r\ndiscard;\r\n", "# caf\u00e9 \u20ac\r\nkeep;\r\n",
+                               "if true {\r\n\r\n# OK then\r\nOK;\r\nNO (x) \"y\"\r\n}\r\n"])
             args = {"listscripts": (), "getscript": (n1,), "putscript": (n1, body), "deletescript": (n1,), "setactive": (n1,),
                     "renamescript": (n1, n2), "havespace": (n1, 10)}[op]
             before = (dict(srv.scripts), srv.active)
@@ -508,3 +509,58 @@ def _expected(op, args, before, srv):
     if op == "renamescript":
         return args[0] in scripts and args[1] not in scripts
     return None
+
+
+# ----------------------------------------------------------------------------- the assumed contract of __get_capabilities (C10)
+
+def bounded_get_capabilities(pid, tier, seed):
+    """every subset of the known capabilities (+ an unknown one), with and without prior entries: the dictionary after
+    __get_capabilities is `announced entries override, others keep their previous entry`; NO changes nothing"""
+    from sievelib import managesieve
+    known = managesieve.KNOWN_CAPABILITIES
+    values = {"IMPLEMENTATION": "Example v1", "SASL": "PLAIN LOGIN", "SIEVE": "fileinto vacation", "STARTTLS": None, "NOTIFY": "mailto",
+              "LANGUAGE": "en", "VERSION": "1.0"}
+    evals = 0
+    findings = {}
+    samples = []
+    priors = [{}, {"SASL": "OLD-MECH", "STARTTLS": None, "VERSION": "0.9"}]
+    for mask in range(1 << len(known)):
+        ann = [k for i, k in enumerate(known) if mask >> i & 1]
+        for prior in priors:
+            for unknown in (False, True):
+                for status in (b'OK "ready"\r\n', b"NO\r\n"):
+                    if status.startswith(b"NO") and (mask % 9 or unknown):
+                        continue
+                    lines = b""
+                    for k in ann:
+                        v = values[k]
+                        lines += quote(k.encode()) + (b" " + quote(v.encode()) if v is not None else b"") + b"\r\n"
+                    if unknown:
+                        lines += b'"XFUTURE" "whatever"\r\n'
+                    sock = CannedSocket([])
+                    sock.outq = lines + status
+                    c = managesieve.Client("x")
+                    c.sock = sock
+                    setattr(c, "_Client__capabilities", dict(prior))
+                    evals += 1
+                    try:
+                        r = c._Client__get_capabilities()
+                    except Exception as e:
+                        findings.setdefault("raises", ({"listing": lines.decode()}, "%s: %s" % (type(e).__name__, e)))
+                        continue
+                    got = getattr(c, "_Client__capabilities")
+                    if status.startswith(b"NO"):
+                        exp, expr = dict(prior), False
+                    else:
+                        exp = dict(prior)
+                        for k in ann:
+                            exp[k] = values[k]
+                        expr = True
+                    if r is not expr or got != exp:
+                        findings.setdefault("contract", ({"listing": lines.decode(), "prior": prior}, "returned %r, capabilities %r, contract says %r / %r" % (r, got, expr, exp)))
+                    elif len(samples) < 2 and ann and prior:
+                        samples.append({"announced": ann, "prior": prior, "verdict": "as the assumed contract says"})
+    return {"name": "get_capabilities-contract", "bound": "all 128 subsets of the known capabilities x {no prior entries, stale entries} x "
+            "{with, without an unknown capability} + NO replies: %d listings" % evals, "rule": "distinct = listing", "evaluations": evals,
+            "distinct": evals, "samples": samples, "exhaustive": True,
+            "violations": [("%s.B.get_capabilities.%s" % (pid, k), w, d) for k, (w, d) in sorted(findings.items())]}
